@@ -17,6 +17,7 @@ from rt import cases as K  # noqa: E402
 CLS_YAML = [
     {"decl": "class Cls", "declarations": [
         {"decl": "Cls(int v)"}, {"decl": "~Cls()"}, {"decl": "int get() const"}, {"decl": "void set(int v)"},
+        {"decl": "bool positive(bool strict) const"},
         {"decl": "static int count()"}, {"decl": "Cls * clone() +owner(caller)"},
         {"decl": "int add(const Cls & other, Cls * third)"}]},
     {"decl": "Cls * make(int v) +owner(caller)"},
@@ -30,6 +31,7 @@ public:
     ~Cls();
     int get() const;
     void set(int v);
+    bool positive(bool strict) const;
     static int count();
     Cls *clone();
     int add(const Cls &other, Cls *third);
@@ -53,6 +55,10 @@ void Cls::set(int v) {
     vt_begin("LibEnter", "Cls::set"); vt_target("ns1::Cls::set(int)"); vt_obj(this); vt_int(v); vt_end();
     value = v;
     vt_begin("LibExit", "Cls::set"); vt_target("ns1::Cls::set(int)"); vt_end(); }
+bool Cls::positive(bool strict) const {
+    vt_begin("LibEnter", "Cls::positive"); vt_target("ns1::Cls::positive(bool)"); vt_obj(this); vt_bool(strict); vt_end();
+    bool rv = strict ? value > 0 : value >= 0;
+    vt_begin("LibExit", "Cls::positive"); vt_target("ns1::Cls::positive(bool)"); vt_bool(rv); vt_end(); return rv; }
 int Cls::count() {
     vt_begin("LibEnter", "Cls::count"); vt_target("ns1::Cls::count()"); vt_end();
     int rv = ncls_;
@@ -83,6 +89,11 @@ def res_row(name, ttype=None):
     if name == "T":
         name = ttype
     return K.RESULTS[name]
+
+
+def px(p):
+    """Cross references of a parameter to other parameters of its function: size argument(s), array argument."""
+    return {k: p.get(k, "") for k in ("m", "a", "m1", "m2")}
 
 
 def fmt(s, **kw):
@@ -116,7 +127,7 @@ def yaml_decl(c):
         if p["kind"] == "T_v":
             s = "T " + p["name"]
         else:
-            s = fmt(row(p)["yaml"], n=p["name"], m=p.get("m", ""), a=p.get("a", ""))
+            s = fmt(row(p)["yaml"], n=p["name"], **px(p))
         if "default" in p:
             s += " = " + p["default"]
         ps.append(s)
@@ -158,24 +169,25 @@ def gen_library(cases, with_class, extra_options=None, language="c++", ns="ns1")
                 head = "%s %s(%s)" % (rr["cxx"], c["name"], ", ".join(ptxt))
             else:
                 if tt == c["template"][0]:
-                    hpp.append("template<typename T> T %s(T %s);" % (c["name"], c["params"][0]["name"]))
+                    gen = ", ".join(("T " + p["name"]) if p["kind"] == "T_v" else fmt(row(p)["cxx"], n=p["name"]) for p in c["params"])
+                    hpp.append("template<typename T> %s %s(%s);" % ("T" if c["result"] == "T" else rr["cxx"], c["name"], gen))
                 head = "template<> %s %s<%s>(%s)" % (rr["cxx"], c["name"], tt, ", ".join(ptxt))
             body = ["    long acc = %d;" % (7 * ci + 3)]
             body.append('    vt_begin("LibEnter", "%s"); vt_target("%s");' % (c["name"], sid))
             for w, p in enumerate(c["params"], 1):
                 r = row(p, tt)
                 if "lib_in" in r:
-                    body.append("    " + fmt(r["lib_in"], n=p["name"], m=p.get("m", "")))
+                    body.append("    " + fmt(r["lib_in"], n=p["name"], **px(p)))
             body.append("    vt_end();")
             for w, p in enumerate(c["params"], 1):
                 r = row(p, tt)
                 if "acc" in r:
-                    body.append("    " + fmt(r["acc"], n=p["name"], w=w, m=p.get("m", "")))
+                    body.append("    " + fmt(r["acc"], n=p["name"], w=w, **px(p)))
             body.append("    if (acc < 0) acc = -acc;")
             for w, p in enumerate(c["params"], 1):
                 r = row(p, tt)
                 if "lib_set" in r:
-                    body.append("    " + fmt(r["lib_set"], n=p["name"], w=w, m=p.get("m", "")))
+                    body.append("    " + fmt(r["lib_set"], n=p["name"], w=w, **px(p)))
             if "lib_make" in rr:
                 body.append("    " + rr["lib_make"])
             body.append('    vt_begin("LibExit", "%s"); vt_target("%s");' % (c["name"], sid))
@@ -184,7 +196,7 @@ def gen_library(cases, with_class, extra_options=None, language="c++", ns="ns1")
             for p in c["params"]:
                 r = row(p, tt)
                 if "lib_out" in r:
-                    body.append("    " + fmt(r["lib_out"], n=p["name"], m=p.get("m", "")))
+                    body.append("    " + fmt(r["lib_out"], n=p["name"], **px(p)))
             body.append("    vt_end();")
             if rr["ty"] != "none":
                 body.append("    return rv;")
@@ -289,7 +301,7 @@ def gen_c_driver(cases, crows, nvals, with_class):
                 for p in c["params"][:nsup]:
                     r = row(p, tt)
                     if "c_in" in r:
-                        blk.append("    " + fmt(r["c_in"], n=p["name"], m=p.get("m", "")))
+                        blk.append("    " + fmt(r["c_in"], n=p["name"], **px(p)))
                 blk.append("    vt_end();")
                 args = ", ".join(fmt(row(p, tt)["c_arg"], n=p["name"]) for p in c["params"][:nsup])
                 call = "%s(%s);" % (cname, args)
@@ -300,7 +312,7 @@ def gen_c_driver(cases, crows, nvals, with_class):
                 for p in c["params"][:nsup]:
                     r = row(p, tt)
                     if "c_out" in r:
-                        blk.append("    " + fmt(r["c_out"], n=p["name"], m=p.get("m", "")))
+                        blk.append("    " + fmt(r["c_out"], n=p["name"], **px(p)))
                 blk.append("    vt_end();")
                 blk.append("  }")
                 lines += blk
